@@ -11,8 +11,11 @@ import (
 // The todo / override / laziness reference model of C15, written from docs/META.md,
 // docs/SERVICES.md, docs/PARAMETERS.md and the runtime's README (parameters are cached once
 // evaluated; an override replaces the definition and drops that entry's cache only; errors
-// are not cached). All services of the C15 workload have the default scope and no contextual
-// dependency, i.e. they are shared.
+// are not cached). All services of the C15 workload are declared without a scope; an overriding
+// definition may carry one. The default scope is determined at run time (runtime README, "Scopes"):
+// contextual if the service has a direct or indirect contextual dependency under the definitions in
+// force, shared otherwise; a contextual instance lives for one invocation of Get, a non_shared one
+// is created for every injection.
 
 type mval struct {
 	scalar  string // fmt "%T(%v)" of a scalar
@@ -42,6 +45,7 @@ type pdef struct {
 type sdef struct {
 	orig   bool
 	marker int
+	scope  string // overriding definitions only: "", shared, contextual, non_shared
 }
 
 type cachedP struct {
@@ -65,6 +69,63 @@ type model15 struct {
 	armed   map[string][]int
 	nextID  int
 	fnEvals map[string]int
+	tree    map[string]cachedS // contextual instances of the Get invocation in progress
+}
+
+// beginTree starts a top-level Get: contextual instances are per invocation.
+func (m *model15) beginTree() { m.tree = map[string]cachedS{} }
+
+// effScope is the scope in force for a service under the current definitions.
+func (m *model15) effScope(name string, seen map[string]bool) string {
+	d, ok := m.sdefs[name]
+	if !ok || seen[name] {
+		return "shared"
+	}
+	seen[name] = true
+	if !d.orig {
+		if d.scope != "" {
+			return d.scope
+		}
+		return "shared" // the overriding definitions of this workload have no service dependencies
+	}
+	s := m.cfg.Svc(name)
+	if s == nil || s.Todo {
+		return "shared"
+	}
+	svcs, _, _ := gen.ArgRefs(s.Args)
+	for _, dep := range svcs {
+		if m.transitivelyContextual(dep, seen) {
+			return "contextual"
+		}
+	}
+	return "shared"
+}
+
+// transitivelyContextual: the service is contextual or reaches a contextual one (a non_shared or shared
+// link in between does not stop the walk: "direct or indirect contextual dependency").
+func (m *model15) transitivelyContextual(name string, seen map[string]bool) bool {
+	d, ok := m.sdefs[name]
+	if !ok {
+		return false
+	}
+	if !d.orig {
+		return d.scope == "contextual"
+	}
+	if seen["t:"+name] {
+		return false
+	}
+	seen["t:"+name] = true
+	s := m.cfg.Svc(name)
+	if s == nil || s.Todo {
+		return false
+	}
+	svcs, _, _ := gen.ArgRefs(s.Args)
+	for _, dep := range svcs {
+		if m.transitivelyContextual(dep, seen) {
+			return true
+		}
+	}
+	return false
 }
 
 func newModel15(cfg *gen.Cfg) *model15 {
@@ -232,6 +293,12 @@ func (m *model15) service(name string) (*mnode, bool, *merr) {
 	if c, ok := m.scache[name]; ok {
 		return c.n, c.tainted, nil
 	}
+	eff := m.effScope(name, map[string]bool{})
+	if eff == "contextual" {
+		if c, ok := m.tree[name]; ok {
+			return c.n, c.tainted, nil
+		}
+	}
 	s := m.cfg.Svc(name)
 	n := &mnode{svc: name}
 	taint := false
@@ -282,7 +349,16 @@ func (m *model15) service(name string) (*mnode, bool, *merr) {
 	}
 	m.nextID++
 	n.id = m.nextID
-	m.scache[name] = cachedS{n, taint}
+	switch eff {
+	case "contextual":
+		if m.tree == nil {
+			m.tree = map[string]cachedS{}
+		}
+		m.tree[name] = cachedS{n, taint}
+	case "non_shared":
+	default:
+		m.scache[name] = cachedS{n, taint}
+	}
 	return n, taint, nil
 }
 
@@ -378,14 +454,14 @@ func (m *model15) overrideParam(name string, d pdef) {
 	delete(m.pcache, name)
 }
 
-func (m *model15) overrideService(name string, marker int) {
+func (m *model15) overrideService(name string, marker int, scope string) {
 	for s, c := range m.scache {
 		if s != name && m.svcDependsOnSvc(s, name, map[string]bool{}) {
 			c.tainted = true
 			m.scache[s] = c
 		}
 	}
-	m.sdefs[name] = sdef{marker: marker}
+	m.sdefs[name] = sdef{marker: marker, scope: scope}
 	delete(m.scache, name)
 }
 
